@@ -27,7 +27,7 @@ EDITS = ['add_logic', 'rename', 'simulate_write', 'add_read_port', 'edit_result'
 
 
 def bounds(tier):
-    return {'functions': FUNCS, 'edit scripts': EDITS, 'K': 3, 'EXPR designs': 20 if tier == 'quick' else 100}
+    return {'functions': FUNCS, 'edit scripts': EDITS, 'K': 3, 'EXPR designs': 20 if tier == 'quick' else 300}
 
 
 def cases(tier, seed):
@@ -41,7 +41,7 @@ def cases(tier, seed):
         base = designs.op_cases([1, 2, 3, 4, 8], ops='w~&|^n+-*<>=xcsm', mul_max=4) + designs.op_cases([1, 3, 8], ops='w+-', dests=('reg',))
         base += [dict(c, reset=(1 << c['wd']) - 1) for c in designs.op_cases([1, 3, 8], ops='w', dests=('reg',))]
         base += [dict(c, reset=0) for c in designs.op_cases([1, 3, 8], ops='w+x', dests=('reg',))]
-        base += designs.expr_cases(100, seed, n=8, maxw=5) + designs.seq_cases(widths=(1, 4, 8)) + designs.misc_cases()
+        base += designs.expr_cases(300, seed, n=8, maxw=5) + designs.seq_cases(widths=(1, 4, 8)) + designs.misc_cases()
     base += [{'fam': 'C11X', 'kind': 'same_name_roms'}, {'fam': 'C11X', 'kind': 'generator_twice'}]
     for i, c in enumerate(base):
         for f in FUNCS:
